@@ -33,7 +33,7 @@ COMPONENTS = {
              'hooks, responder, failing media handler / render_body'],
 }
 EXPECTED_PROBES = ('pre_request', 'hostile_str', 'raised_in_mw', 'raised_in_hook', 'raised_in_responder', 'raised_in_response_mw',
-                   'raised_in_render', 'error_document_serializer_failed', 'default_http_handler', 'default_status_handler',
+                   'raised_in_render', 'framework_raised_in_render', 'error_document_serializer_failed', 'default_http_handler', 'default_status_handler',
                    'default_python_handler', 'custom_handler', 'handler_raised_http', 'handler_raised_status',
                    'xml_body', 'json_body', 'custom_media_body', 'no_body_negotiated', 'multi_inheritance')
 ASSUMPTIONS = (
@@ -207,7 +207,7 @@ def run(ctx):
     names = [s[0] for s in spec]
     for _ in range(n_reg):
         k = ch.draw(n_handlers, 'handler')
-        pool = names + (['Exception', 'HTTPError', 'HTTPStatus'] if ch.draw(4, 'override_defaults') == 3 else [])
+        pool = names + (['Exception', 'HTTPError', 'HTTPStatus', 'ValueError'] if ch.draw(4, 'override_defaults') == 3 else [])
         if ch.draw(4, 'tuple') == 3 and len(pool) > 1:
             cl = sorted(set(pool[ch.draw(len(pool), 'cls')] for _ in range(2)))
         else:
@@ -233,7 +233,7 @@ def run(ctx):
     asgi = bool(ch.draw(2, 'asgi'))
     plan = gen_stack(ch, max_components=2)
     plan['routed'] = True
-    render_kind = ch.choice(['media', 'render_body'], 'render_kind')
+    render_kind = ch.choice(['media', 'render_body', 'text'], 'render_kind')
     pre_vary = ch.choice([None, None, 'Accept-Encoding', 'Origin, Accept-Language'], 'pre_vary')
     # an earlier request on the same app that ends in a header-bearing built-in error
     pre_kind = ch.choice([None, None, 'method_not_allowed', 'unauthorized', 'too_many', 'range', 'unavailable'],
@@ -291,8 +291,18 @@ def run(ctx):
 
     calls = []          # (handler idx, class name of ex, text/data/media at entry)
     raised = {}
-    the_exc = make_exc(raise_cls, err_args, st_args)
-    if hostile and fam_of[raise_cls] == 'app' and raise_cls != 'ValueError':
+    if raise_site == 'render' and render_kind == 'text':
+        # the framework itself raises while rendering: resp.text holds a str that UTF-8 cannot
+        # encode (a lone surrogate, e.g. echoed from a JSON escape)
+        raise_cls = 'UnicodeEncodeError'
+        fam_of[raise_cls] = 'app'
+        ns[raise_cls] = UnicodeEncodeError
+        ctx.plan['raise'] = raise_cls
+        ctx.plan_key = json.dumps(ctx.plan, sort_keys=True, default=repr)
+        ctx.probe('framework_raised_in_render')
+    the_exc = make_exc(raise_cls, err_args, st_args) if raise_cls != 'UnicodeEncodeError' else \
+        UnicodeEncodeError('utf-8', 'caf\udce9', 3, 4, 'surrogates not allowed')
+    if hostile and fam_of[raise_cls] == 'app' and raise_cls not in ('ValueError', 'UnicodeEncodeError'):
         # an exception whose __str__/__repr__ misbehave is still "any other Exception"
         class _Hostile(type(the_exc)):
             def __str__(self):
@@ -403,6 +413,9 @@ def run(ctx):
                 if render_kind == 'media':
                     resp.content_type = 'application/x-fail'
                     resp.media = {'will': 'fail'}
+                elif render_kind == 'text':
+                    resp.text = 'caf\udce9'
+                    raised['site'] = 'render'
                 else:
                     resp.context.fail_render = True
             return setup
